@@ -1,6 +1,7 @@
 """Translate the alignment tables of src/compute/common/alignment.rs (`apply_alignment_fallback`,
 `compute_alignment_offset`) and `sum_axis_gaps` of src/compute/flexbox.rs into `Num`-generic Gallina, and
-fingerprint the hand-modelled flexbox functions (Model/Flex.v, Model/FlexRun.v).
+fingerprint the hand-modelled flexbox functions (Model/Flex.v, Model/FlexRun.v, Model/FlexLines.v, Model/FlexBase.v,
+Model/FlexContainer.v).
 
 Source forms accepted (anything else: Refuse):
   * parameters of type f32 (-> T), usize (-> Z), bool, AlignContent
@@ -291,7 +292,12 @@ def translate_fn(toks, name, variants, ret):
 
 
 FINGERPRINTED = ['resolve_flexible_lengths', 'distribute_remaining_free_space', 'calculate_flex_item', 'calculate_layout_line',
-                 'determine_flex_base_size', 'generate_anonymous_flex_items', 'compute_constants']
+                 'determine_flex_base_size', 'generate_anonymous_flex_items', 'compute_constants',
+                 # Model/FlexLines.v, Model/FlexBase.v, Model/FlexContainer.v (K2)
+                 'collect_flex_lines', 'determine_available_space', 'compute_flexbox_layout', 'compute_preliminary',
+                 'determine_hypothetical_cross_size', 'calculate_cross_size', 'handle_align_content_stretch',
+                 'determine_used_cross_size', 'resolve_cross_axis_auto_margins', 'align_flex_items_along_cross_axis',
+                 'determine_container_cross_size', 'align_flex_lines_per_align_content', 'final_layout_pass']
 
 
 def generate(repo):
